@@ -130,7 +130,7 @@ def scenario(args):
     name, n, faults, nclients, nops, idx = args
     rnd = random.Random(seed * 1000 + idx)
     membership = name.startswith("membership")
-    cl = cluster.Cluster(n, trace=name.startswith("pinned"), join_later=1 if membership else 0).start_all()
+    cl = cluster.Cluster(n, trace=name.startswith("pinned"), join_later=1 if "add-node" in faults else 0).start_all()
     rec = Recorder(idx)
     stats = {"answered": 0, "unanswered": 0, "faults": []}
     killed_by_us = set()
@@ -243,11 +243,11 @@ def scenario(args):
 
 if tier == "quick":
     plan = [("steady", 3, [], 6, 20), ("follower-or-leader-kill", 3, ["kill-restart"], 5, 25), ("pause", 3, ["pause"], 5, 20),
-            ("pinned-one-client-per-node", 3, [], 3, 40), ("membership-add-remove", 3, ["add-node", "remove-node"], 5, 40)]
+            ("pinned-one-client-per-node", 3, [], 3, 40), ("membership-add", 3, ["add-node"], 5, 40), ("membership-remove", 3, ["remove-node"], 5, 40)]
 else:
     plan = [("steady", 3, [], 8, 30), ("steady-5", 5, [], 8, 25), ("pinned-one-client-per-node", 3, [], 3, 60), ("pinned-5", 5, [], 5, 40),
-            ("pinned-then-kill", 3, ["kill-restart"], 3, 60), ("membership-add-remove", 3, ["add-node", "remove-node"], 6, 60),
-            ("membership-add-kill-remove", 3, ["add-node", "kill-restart", "remove-node"], 6, 70)] + [("kill-restart", 3, ["kill-restart"], 5, 30)] * 4 + \
+            ("pinned-then-kill", 3, ["kill-restart"], 3, 60), ("membership-add", 3, ["add-node"], 6, 60), ("membership-remove", 3, ["remove-node"], 6, 60),
+            ("membership-add-kill", 3, ["add-node", "kill-restart"], 6, 70), ("membership-remove-5", 5, ["remove-node", "kill-restart"], 6, 60)] + [("kill-restart", 3, ["kill-restart"], 5, 30)] * 4 + \
            [("two-kills", 3, ["kill-restart", "kill-restart"], 5, 35)] * 3 + [("pause", 3, ["pause"], 5, 25)] * 2 + \
            [("kill-5", 5, ["kill-restart", "pause", "kill-restart"], 6, 30)] * 2
 jobs = [(name, n, faults, nc, nops, i + 1) for i, (name, n, faults, nc, nops) in enumerate(plan)]
